@@ -37,8 +37,13 @@ RW = ["xyz", "sdf", "pdb"]
 
 
 def correspond(ctx):
+    from . import _fchk
+
     for k in RW:
         K.corr_roundtrip(ctx, ADAPTERS[k], ctx.n(40, 400))
+    _fchk.corr_fields(ctx, ctx.n(120, 1200))
+    _fchk.corr_objects(ctx, ctx.n(60, 500))
+    _fchk.corr_shuffles(ctx)
 
 
 def search(ctx):
@@ -49,6 +54,9 @@ def search(ctx):
         K.search_c02(ctx, ad, ctx.n(30, 400) * mult)
     for k in RW:
         K.search_c02(ctx, ADAPTERS[k], ctx.n(40, 600) * mult)
+    from ._fchk import FCHK_FREE
+
+    K.search_c02(ctx, FCHK_FREE, ctx.n(60, 600) * mult)
 
 
 def replay(ctx, obj):
